@@ -112,18 +112,19 @@ theorem sum_class (n na : Nat) (desc : Nat → Nat) (a : Nat) (ia : Nat → Nat)
   intro i hi j hj h
   exact hinj i j (Finset.mem_range.mp hi) (Finset.mem_range.mp hj) h
 
-/-- `calc_one` on the observations of conditions `a` and `b` (enumerated by `ia`, `ib`, with
-    their fold codes) returns the pair average of the full computation, when
-    cross-validating -/
-theorem calcOne_eq_specSim (c : Cfg K) (hk : ∀ i j, c.kern i j = c.kern j i)
+/-- the two sums accumulated by `calc_one` on the observations of conditions `a` and `b`
+    (enumerated by `ia`, `ib`, with their fold codes) are the rectangle sums of the full
+    computation, when cross-validating -/
+theorem calcOne_rect (c : Cfg K)
     (hcv : c.crossval = true) (a b na nb : Nat) (ia ib : Nat → Nat)
     (hinja : ∀ i j, i < na → j < na → ia i = ia j → i = j)
     (himga : ∀ i', (i' < c.nObs ∧ c.desc i' = a) ↔ ∃ i, i < na ∧ ia i = i')
     (hinjb : ∀ i j, i < nb → j < nb → ib i = ib j → i = j)
     (himgb : ∀ i', (i' < c.nObs ∧ c.desc i' = b) ↔ ∃ i, i < nb ∧ ib i = i') :
-    (calcOne na nb (fun i => c.cv (ia i)) (fun j => c.cv (ib j)) c.number
-      (fun i j => c.kern (ia i) (ib j))).1 = specSim c a b := by
-  rw [calcOne_eq_sums, specSim_eq_rect c hk]
+    oneNum na nb (fun i => c.cv (ia i)) (fun j => c.cv (ib j)) c.number
+      (fun i j => c.kern (ia i) (ib j)) = rectNum c a b ∧
+    oneDen na nb (fun i => c.cv (ia i)) (fun j => c.cv (ib j)) c.number
+      (fun i j => c.kern (ia i) (ib j)) = rectDen c a b := by
   have key : ∀ (f : K × K → K),
       sumTo na (fun i => sumTo nb (fun j =>
         if (c.cv (ia i) != c.cv (ib j)) = true ∧ 0 < (c.kern (ia i) (ib j)).2
@@ -150,12 +151,35 @@ theorem calcOne_eq_specSim (c : Cfg K) (hk : ∀ i j, c.kern i j = c.kern j i)
     rw [sum_class c.nObs na c.desc a ia hinja himga]
     apply Finset.sum_congr rfl; intro i _
     rw [sum_class c.nObs nb c.desc b ib hinjb himgb]
-  have hN : oneNum na nb (fun i => c.cv (ia i)) (fun j => c.cv (ib j)) c.number
-      (fun i j => c.kern (ia i) (ib j)) = rectNum c a b := by
-    rw [rectNum_eq_sum]; exact key _
-  have hD : oneDen na nb (fun i => c.cv (ia i)) (fun j => c.cv (ib j)) c.number
-      (fun i j => c.kern (ia i) (ib j)) = rectDen c a b := by
-    rw [rectDen_eq_sum]; exact key _
+  constructor
+  · rw [rectNum_eq_sum]; exact key _
+  · rw [rectDen_eq_sum]; exact key _
+
+/-- `calc_one` on the observations of conditions `a` and `b` returns the pair average of the
+    full computation, when cross-validating -/
+theorem calcOne_eq_specSim (c : Cfg K) (hk : ∀ i j, c.kern i j = c.kern j i)
+    (hcv : c.crossval = true) (a b na nb : Nat) (ia ib : Nat → Nat)
+    (hinja : ∀ i j, i < na → j < na → ia i = ia j → i = j)
+    (himga : ∀ i', (i' < c.nObs ∧ c.desc i' = a) ↔ ∃ i, i < na ∧ ia i = i')
+    (hinjb : ∀ i j, i < nb → j < nb → ib i = ib j → i = j)
+    (himgb : ∀ i', (i' < c.nObs ∧ c.desc i' = b) ↔ ∃ i, i < nb ∧ ib i = i') :
+    (calcOne na nb (fun i => c.cv (ia i)) (fun j => c.cv (ib j)) c.number
+      (fun i j => c.kern (ia i) (ib j))).1 = specSim c a b := by
+  obtain ⟨hN, hD⟩ := calcOne_rect c hcv a b na nb ia ib hinja himga hinjb himgb
+  rw [calcOne_eq_sums, specSim_eq_rect c hk]
   rw [hN, hD]
+
+/-- … and its second result is the summed weight of the admissible ordered pairs -/
+theorem calcOne_weight (c : Cfg K)
+    (hcv : c.crossval = true) (a b na nb : Nat) (ia ib : Nat → Nat)
+    (hinja : ∀ i j, i < na → j < na → ia i = ia j → i = j)
+    (himga : ∀ i', (i' < c.nObs ∧ c.desc i' = a) ↔ ∃ i, i < na ∧ ia i = i')
+    (hinjb : ∀ i j, i < nb → j < nb → ib i = ib j → i = j)
+    (himgb : ∀ i', (i' < c.nObs ∧ c.desc i' = b) ↔ ∃ i, i < nb ∧ ib i = i') :
+    (calcOne na nb (fun i => c.cv (ia i)) (fun j => c.cv (ib j)) c.number
+      (fun i j => c.kern (ia i) (ib j))).2 = rectDen c a b := by
+  obtain ⟨_, hD⟩ := calcOne_rect c hcv a b na nb ia ib hinja himga hinjb himgb
+  rw [calcOne_eq_sums]
+  exact hD
 
 end Rsa.Unb
